@@ -32,8 +32,11 @@ try:
     ddir = re.sub(r"^(\./)?", "", ddir)
     dcmd = meta.get("demo_command", "")
     denv = dict(env)
-    for kv in re.findall(r"(\w+)=(\S+)", meta.get("demo_env", "") or ""):
-        denv[kv[0]] = kv[1]
+    for kv in re.findall(r"\b([A-Z][A-Z0-9_]+)=([^\s;,)]+)", meta.get("demo_env", "") or ""):
+        if kv[0] not in ("GOFLAGS", "GOPROXY", "GOSUMDB", "GOTOOLCHAIN"):
+            denv[kv[0]] = kv[1]
+    # the recorded command may carry free text after the command proper: keep the first command only
+    dcmd = re.split(r"\s{2,}\(|\s+\(also|\s+#", dcmd)[0].strip()
 
     def put_demo():
         for f in demos:
